@@ -28,6 +28,7 @@ type dNode struct {
 	h       *dispHarness
 	slow    bool
 	release chan struct{}
+	reenter bool // calls back into the Broker (a registering call) from Process
 }
 
 type dErr struct{ p, k int }
@@ -56,6 +57,11 @@ type dCall struct {
 func (n *dNode) Process(ctx context.Context, e *eventlogger.Event) (*eventlogger.Event, error) {
 	if n.slow {
 		<-n.release
+	}
+	if n.reenter && n.h.b != nil {
+		// Send holds none of the Broker's locks while nodes run
+		n.h.b.RegisterNode("scratch", &dNode{p: 99, k: 0, out: 'p', ty: eventlogger.NodeTypeFilter, h: n.h})
+		n.h.b.IsAnyPipelineRegistered("t")
 	}
 	var out *eventlogger.Event
 	var err error
@@ -95,7 +101,9 @@ type dispHarness struct {
 	perturb  int
 	idOf     map[eventlogger.NodeID][2]int
 	closedCh chan struct{}
+	closeOne sync.Once
 	st       *stats
+	b        *eventlogger.Broker
 }
 
 func (h *dispHarness) hook(point string, _ eventlogger.PipelineID, nid eventlogger.NodeID) {
@@ -144,7 +152,7 @@ func (h *dispHarness) hook(point string, _ eventlogger.PipelineID, nid eventlogg
 	}
 	h.mu.Unlock()
 	if point == "closed" {
-		close(h.closedCh)
+		h.closeOne.Do(func() { close(h.closedCh) })
 	}
 	switch act {
 	case 1:
@@ -159,6 +167,7 @@ type dispCase struct {
 	thr, thrS int
 	cancelAt  int // hook event index at which the context is cancelled; -1 never; -2 before the call
 	slow      map[[2]int]bool
+	reenter   map[[2]int]bool
 	perturb   int
 }
 
@@ -168,13 +177,19 @@ func (c dispCase) String() string {
 		slow = append(slow, fmt.Sprintf("%d/%d", k[0], k[1]))
 	}
 	sort.Strings(slow)
-	return fmt.Sprintf("pipes=%v thr=%d/%d cancelAt=%d slow=%v perturb=%d", c.outs, c.thr, c.thrS, c.cancelAt, slow, c.perturb)
+	var re []string
+	for k := range c.reenter {
+		re = append(re, fmt.Sprintf("%d/%d", k[0], k[1]))
+	}
+	sort.Strings(re)
+	return fmt.Sprintf("pipes=%v thr=%d/%d cancelAt=%d slow=%v reenter=%v perturb=%d", c.outs, c.thr, c.thrS, c.cancelAt, slow, re, c.perturb)
 }
 
 // runDispatch executes one Send and returns the trace lines (ops) with the implementation's verdict lines.
 func runDispatch(c dispCase, seed uint64, st *stats, oracle func(string, ...any)) (ops, impl []string) {
 	h := &dispHarness{idOf: map[eventlogger.NodeID][2]int{}, prng: newPrng(seed), perturb: c.perturb, cancelAt: c.cancelAt, closedCh: make(chan struct{}), st: st}
 	b, _ := eventlogger.NewBroker()
+	h.b = b
 	var slowNodes []*dNode
 	nodes := map[[2]int]*dNode{}
 	for p, outs := range c.outs {
@@ -186,7 +201,7 @@ func runDispatch(c dispCase, seed uint64, st *stats, oracle func(string, ...any)
 			} else if k == len(outs)-2 {
 				ty = eventlogger.NodeTypeFormatter
 			}
-			n := &dNode{p: p, k: k, out: outs[k], ty: ty, h: h, slow: c.slow[[2]int{p, k}], release: make(chan struct{})}
+			n := &dNode{p: p, k: k, out: outs[k], ty: ty, h: h, slow: c.slow[[2]int{p, k}], release: make(chan struct{}), reenter: c.reenter[[2]int{p, k}]}
 			if n.slow {
 				slowNodes = append(slowNodes, n)
 			}
@@ -472,7 +487,7 @@ func genDispCase(p *prng) dispCase {
 	if p.chance(1, 3) {
 		n = 1 + p.intn(3)
 	}
-	c := dispCase{cancelAt: -1, slow: map[[2]int]bool{}}
+	c := dispCase{cancelAt: -1, slow: map[[2]int]bool{}, reenter: map[[2]int]bool{}}
 	total := 0
 	for i := 0; i < n; i++ {
 		l := 2 + p.intn(4)
@@ -502,6 +517,10 @@ func genDispCase(p *prng) dispCase {
 		pi := p.intn(n)
 		c.slow[[2]int{pi, p.intn(len(c.outs[pi]))}] = true
 	}
+	if n > 0 && p.chance(1, 5) {
+		pi := p.intn(n)
+		c.reenter[[2]int{pi, p.intn(len(c.outs[pi]))}] = true
+	}
 	c.perturb = []int{0, 3, 3, 6}[p.intn(4)]
 	return c
 }
@@ -522,13 +541,20 @@ func dispatchMain(args []string) {
 	p := newPrng(*seed)
 	seen := map[string]bool{}
 	var cur dispCase
+	hung := false
 	oracle := func(f string, a ...any) {
 		st.hit("oracle-failure")
 		if len(st.Oracle) < 40 {
 			st.Oracle = append(st.Oracle, fmt.Sprintf(f, a...))
 		}
+		if strings.Contains(f, "did not return") || strings.Contains(f, "did not finish") {
+			hung = true // goroutines of that Send are still around: they would talk to the next case's hook
+		}
 	}
 	runOne := func(c dispCase, s uint64) {
+		if hung {
+			return
+		}
 		cur = c
 		_ = cur
 		ops, impl := runDispatch(c, s, st, oracle)
